@@ -369,6 +369,19 @@ func init() {
 					break
 				}
 			}
+			// table dimension: every ordered triple of features over a ten-location menu: insert;delete and embed;delete at every index
+			if complete {
+				L, tables := multiTables()
+				done := r.ParallelFor(len(tables)*(L+1), func(idx int) {
+					t, i := tables[idx/(L+1)], idx%(L+1)
+					for n := 1; n <= 2; n++ {
+						eval(c10Case{Op: "insert-delete", L: L, Locs: t, I: i, N: n}, true)
+						eval(c10Case{Op: "embed-delete", L: L, Locs: t, I: i, N: n}, true)
+					}
+				})
+				complete = complete && done
+				r.Extra["three_feature_tables"] = len(tables)
+			}
 			// part-count dimension: structured locations of 6..10 (thorough 16) parts: insert;delete and embed;delete at every
 			// index, and cut sets of 1..3 positions drawn from every third position
 			{
